@@ -1,0 +1,67 @@
+//go:build verif
+
+// Contracts for the exovc verifier (/verif). Comment-only: with the tag off this file is not part
+// of the package, with the tag on it declares nothing.
+package keeper
+
+// ---------------------------------------------------------------------------------------------
+// C02 pure layer: share <-> token conversion equals the spec functions of /verif/spec/share.smt2
+
+//@ func TokensFromShares
+//@   requires !isnil(stakerShare) && !isnil(totalShare) && !isnil(totalAmount)
+//@   ensures[C02.tfs.err]  (err != nil) <==> (val(stakerShare) > val(totalShare) || (val(totalShare) == 0 && val(totalAmount) != 0))
+//@   ensures[C02.tfs.spec] err == nil && val(totalShare) != 0 ==>
+//@                           !isnil(r0) && val(r0) == tokens_from_shares(val(stakerShare), val(totalShare), val(totalAmount))
+//@   ensures[C02.tfs.zero] (err != nil || val(totalShare) == 0) ==> !isnil(r0) && val(r0) == 0
+
+//@ func SharesFromTokens
+//@   requires !isnil(totalShare) && !isnil(stakerAmount) && !isnil(totalAmount)
+//@   ensures[C02.sft.err]  (err != nil) <==> (val(totalAmount) == 0 && val(totalShare) != 0)
+//@   ensures[C02.sft.spec] err == nil && val(totalAmount) != 0 ==>
+//@                           !isnil(r0) && val(r0) == shares_from_tokens(val(totalShare), val(stakerAmount), val(totalAmount))
+//@   ensures[C02.sft.zero] (err != nil || val(totalAmount) == 0) ==> !isnil(r0) && val(r0) == 0
+
+// ---------------------------------------------------------------------------------------------
+// C02 lemmas over the spec functions. S, s, o are 18-decimal scaled share integers, T, x token
+// integers. Hypothesis RATE: T*10^18 <= S (a share is never worth more than one base unit; it
+// holds from the first delegation on and is preserved by delegation and slashing).
+
+//@ lemma[C02.L1.upper] roundtrip_upper(S Int, T Int, x Int)
+//@   hyp  S > 0 && T > 0 && x > 0
+//@   goal redeem_all(shares_from_tokens(S, x, T), S + shares_from_tokens(S, x, T), T + x) <= x
+
+//@ lemma[C02.L1.lower] roundtrip_lower(S Int, T Int, x Int)
+//@   hyp  S > 0 && T > 0 && x > 0 && T * P18 <= S
+//@   goal redeem_all(shares_from_tokens(S, x, T), S + shares_from_tokens(S, x, T), T + x) >= x - 1
+
+//@ lemma[C02.L1.first] roundtrip_first(x Int)
+//@   hyp  x > 0
+//@   goal redeem_all(x * P18, x * P18, x) == x
+
+//@ lemma[C02.L2.minted] minted_not_more_than_exact(S Int, T Int, x Int)
+//@   hyp  S >= 0 && T > 0 && x >= 0
+//@   goal shares_from_tokens(S, x, T) * T <= S * x && shares_from_tokens(S, x, T) >= 0
+
+//@ lemma[C02.L3.pool] redeemed_within_pool(s Int, S Int, T Int)
+//@   hyp  0 <= s && s <= S && S > 0 && T >= 0 && T * P18 <= S
+//@   goal 0 <= redeem_all(s, S, T) && redeem_all(s, S, T) <= T
+
+//@ lemma[C02.L4.delegate.up] other_value_across_delegation_up(S Int, T Int, x Int, o Int)
+//@   hyp  S > 0 && T > 0 && x > 0 && T * P18 <= S && 0 <= o && o <= S
+//@   goal tokens_from_shares(o, S + shares_from_tokens(S, x, T), T + x) - tokens_from_shares(o, S, T) <= 1
+
+//@ lemma[C02.L4.delegate.down] other_value_across_delegation_down(S Int, T Int, x Int, o Int)
+//@   hyp  S > 0 && T > 0 && x > 0 && T * P18 <= S && 0 <= o && o <= S
+//@   goal tokens_from_shares(o, S, T) - tokens_from_shares(o, S + shares_from_tokens(S, x, T), T + x) <= 1
+
+//@ lemma[C02.L4.undelegate.up] other_value_across_undelegation_up(S Int, T Int, s Int, o Int)
+//@   hyp  S > 0 && T > 0 && T * P18 <= S && 0 < s && 0 < o && s + o <= S
+//@   goal tokens_from_shares(o, S - s, T - redeem_all(s, S, T)) - tokens_from_shares(o, S, T) <= 1
+
+//@ lemma[C02.L4.undelegate.down] other_value_across_undelegation_down(S Int, T Int, s Int, o Int)
+//@   hyp  S > 0 && T > 0 && T * P18 <= S && 0 < s && 0 < o && s + o <= S
+//@   goal tokens_from_shares(o, S, T) - tokens_from_shares(o, S - s, T - redeem_all(s, S, T)) <= 1
+
+//@ lemma[C02.L5.last] last_share_takes_pool(S Int, T Int)
+//@   hyp  S > 0 && T >= 0
+//@   goal redeem_all(S, S, T) == T
